@@ -15,7 +15,7 @@ Definition old_update_variant : variant := {| v_mask := [Rename; Remove; Write; 
 (* a slip: Rename dropped from the mask as redundant with Create *)
 Definition no_rename_variant : variant := {| v_mask := [Remove; Write; Create]; v_removed_first := true |}.
 
-Definition spec1 : content := CSpec "vendor.com/class" ["dev0"].
+Definition spec1 : content := CSpec "vendor.com/class" ["dev0"] "t".
 Definition one_dir : list dname := ["/etc/cdi"].
 Definition empty_dir : fsys := mkfs [("/etc/cdi", [])].
 
@@ -54,7 +54,7 @@ Proof. exists one_dir, empty_dir, witness_no_rename. exact no_rename_diverges. Q
 Lemma fixed_on_witnesses :
   (let s := run fixed_variant one_dir (init one_dir empty_dir) witness_linux_mask in
    kq s = [] /\ cq s = [] /\
-   answer one_dir (query fixed_variant one_dir s) = ([("vendor.com/class=dev0", "/etc/cdi/a.json")], [])) /\
+   answer one_dir (query fixed_variant one_dir s) = ([("vendor.com/class=dev0", "/etc/cdi/a.json#t")], [])) /\
   (let s := run fixed_variant one_dir (init one_dir empty_dir) witness_update_order in
    let s' := drain fixed_variant one_dir 2 s in
    kq s' = [] /\ cq s' = [] /\ answer one_dir (query fixed_variant one_dir s') = ([], ["/etc/cdi"]) /\
